@@ -165,6 +165,9 @@ package modbus
 //@   guarded[C14] conn, address
 //@   shared[C14] conn, address
 //@   ensures[C14] muState == 0
+//@   safety[C08]
+//@   ensures[C08.failedconnect] err != nil ==> c.conn == old(c.conn) && c.address == old(c.address)
+//@   ensures[C08] err == nil ==> c.address == address
 
 //@ func (c *Client) Close() (err error)
 //@   requires c != nil
